@@ -14,7 +14,8 @@ PROP = dict(
     regen=['consts', 'toolconsts'],
     theorems=['Fit.C20.C20_conceal_hides', 'Fit.C20.C20_conceal_records_exact', 'Fit.C20.C20_conceal_only_positions',
               'Fit.C20.C20_remove_exact', 'Fit.C20.C20_reduce_exact_distance', 'Fit.C20.C20_reduce_exact_distance_mono',
-              'Fit.C20.C20_reduce_exact_time', 'Fit.C20.C20_reduce_conserves', 'Fit.C20.C20_reduce_rdp_sublist'],
+              'Fit.C20.C20_reduce_exact_time', 'Fit.C20.C20_reduce_conserves', 'Fit.C20.C20_reduce_rdp_sublist',
+              'Fit.C20.C20_combine_order', 'Fit.C20.C20_combine_sort', 'Fit.C20.C20_conceal_lap_session_F17_witness'],
     families=[dict(name='activity', prop=True)],
     trusted_base=STD_TRUST + [
         "message and field numbers (record/lap/session/…, position, distance, start_time, total_timer_time) and the remover's list of known message numbers are printed from the compiled packages on every run (Generated/ToolConsts.lean)",
